@@ -244,7 +244,8 @@ def _do(io, w, registry, op, j):
         # another measurement file with the same base name in another folder
         c = make_curve(w, registry, "d", "/other/a.jpk-force", 0)
     try:
-        io.save_hdf5("/c.h5", c, user_rate=j, user_name=f"user{j}", user_comment=f"comment{j}")
+        # the rating is a solver variable (equal to or different from earlier ones)
+        io.save_hdf5("/c.h5", c, user_rate=real(f"rate{j}"), user_name=f"user{j}", user_comment=f"comment{j}")
         return c, None
     except (ValueError, OSError) as e:
         return c, e
@@ -330,8 +331,8 @@ def t_history(hist):
               sorted((str(r["data_set"].path), r["enum"]) for r in ratings)
               == sorted({"a": ("/data/a.jpk-force", 0), "a2": ("/data/a.jpk-force", 0), "b": ("/data/a.jpk-force", 1),
                          "c": ("/data/c.jpk-force", 0), "d": ("/other/a.jpk-force", 0)}[t] for t in stored.values()))
-        prove(f"step{j}:latest-user-fields", len(mine) == 1 and mine[0]["rating"] == j + 1
-              and mine[0]["name"] == f"user{j + 1}" and mine[0]["comment"] == f"comment{j + 1}")
+        prove(f"step{j}:latest-user-fields", len(mine) == 1 and all_of([same(mine[0]["rating"], real(f"rate{j + 1}")),
+                                          mine[0]["name"] == f"user{j + 1}", mine[0]["comment"] == f"comment{j + 1}"]))
     return {"history": [OPS[i] for i in hist]}
 
 
@@ -392,6 +393,12 @@ def fitted(path, **fitkw):
     idnt.fit_model(model_key="hertz_para", **fitkw)
     return idnt
 '''
+
+
+def _num(v):
+    if isinstance(v, dict):
+        return float(v.get("float", 0))
+    return float(v)
 
 
 def replay(task, ob, model):
@@ -481,6 +488,7 @@ sys.exit(0)
         hist = [OPS[i] for i in a["hist"]]
         return common.REPLAY_HEAD + REPLAY_SETUP + f'''
 hist = {hist!r}
+rates = {[_num(model.get(f"rate{j + 1}", j + 1)) for j in range(len(hist))]!r}
 mapf = jpk / "fmt-jpk-fd_map2x2_extracted.jpk-force-map"
 def curve(op):
     if op in ("A", "A-again", "A-otherfit"):
@@ -518,7 +526,7 @@ for j, op in enumerate(hist):
     c = curve(op)
     gid = "%s_%s" % (rio.hash_file(c.path), c.enum)
     try:
-        rio.save_hdf5(h5, c, user_rate=j + 1, user_name="user%d" % (j + 1), user_comment="comment%d" % (j + 1)); err = None
+        rio.save_hdf5(h5, c, user_rate=rates[j], user_name="user%d" % (j + 1), user_comment="comment%d" % (j + 1)); err = None
     except ValueError as e:
         err = e
     after = dump(h5)
@@ -541,78 +549,9 @@ for j, op in enumerate(hist):
     try:
         rr = rio.load(h5)
         if len(rr) != len(stored): bad.append("step %d: %d ratings for %d stored curves" % (j, len(rr), len(stored)))
-    except BaseException as e:
-        bad.append("step %d: load raised %r" % (j, e))
-shutil.rmtree(tdir, ignore_errors=True)
-print({ob["name"]!r}, bad)
-if bad:
-    print("REPRODUCED"); sys.exit(1)
-sys.exit(0)
-'''
-    if task["fn"] == "t_history":
-        hist = [OPS[i] for i in a["hist"]]
-        return common.REPLAY_HEAD + REPLAY_SETUP + f'''
-hist = {hist!r}
-mapf = jpk / "fmt-jpk-fd_map2x2_extracted.jpk-force-map"
-def curve(op):
-    if op in ("A", "A-again", "A-otherfit"):
-        i = nanite.IndentationGroup(mapf)[0]
-    elif op == "B-enum":
-        i = nanite.IndentationGroup(mapf)[1]
-    elif op == "C-file":
-        i = nanite.IndentationGroup(files[0])[0]
-    else:
-        # a different measurement with the base name of the map file, in another folder
-        other = tdir / "other"; other.mkdir(exist_ok=True)
-        tgt = other / mapf.name
-        if not tgt.exists(): shutil.copy(jpk / "fmt-jpk-fd_map1d_2016-11-07.jpk-force-map", tgt)
-        i = nanite.IndentationGroup(tgt)[0]
-    i.apply_preprocessing(["compute_tip_position", "correct_force_offset", "correct_tip_offset"])
-    if op == "A-otherfit":
-        i.fit_model(model_key="hertz_cone")
-    else:
-        i.fit_model(model_key="hertz_para")
-    return i
-def dump(h5):
-    out = {{}}
-    if not h5.exists(): return out
-    with h5py.File(h5, "r") as f:
-        def visit(name, obj):
-            out[name] = ({{k: (v.tolist() if hasattr(v, "tolist") else v) for k, v in obj.attrs.items()}},
-                         obj[...].tobytes() if isinstance(obj, h5py.Dataset) else None)
-        f.visititems(visit)
-    return out
-VOL = ("user comment", "user name", "user rate", "user time", "user time str", "nanite version", "h5py version")
-h5 = tdir / "c.h5"
-bad = []; stored = {{}}
-for j, op in enumerate(hist):
-    before = dump(h5)
-    c = curve(op)
-    gid = "%s_%s" % (rio.hash_file(c.path), c.enum)
-    try:
-        rio.save_hdf5(h5, c, user_rate=j + 1, user_name="user%d" % (j + 1), user_comment="comment%d" % (j + 1)); err = None
-    except ValueError as e:
-        err = e
-    after = dump(h5)
-    kind = "a2" if op == "A-otherfit" else op[0].lower()
-    paths_expected = None
-    if gid in stored and stored[gid] != kind:
-        if err is None: bad.append("step %d: different fit accepted" % j)
-        if before != after: bad.append("step %d: refused save changed the file" % j)
-        continue
-    if err is not None: bad.append("step %d: save refused %r" % (j, err)); continue
-    for name, (attrs, data) in before.items():
-        own = name.startswith("analysis/" + gid)
-        a2, d2 = after.get(name, (None, None))
-        if a2 is None: bad.append("step %d: entry %s vanished" % (j, name)); continue
-        if data != d2: bad.append("step %d: data of %s changed" % (j, name))
-        for k, v in attrs.items():
-            if own and k in VOL: continue
-            if a2.get(k) != v: bad.append("step %d: attribute %s of %s changed" % (j, k, name))
-    stored[gid] = kind
-    try:
-        rr = rio.load(h5)
-        if len(rr) != len(stored): bad.append("step %d: %d ratings for %d stored curves" % (j, len(rr), len(stored)))
+        mine = [r for r in rr if r["enum"] == c.enum and rio.hash_file(r["data_set"].path) == rio.hash_file(c.path)]
+        if len(mine) != 1 or mine[0]["rating"] != rates[j] or mine[0]["name"] != "user%d" % (j + 1) or mine[0]["comment"] != "comment%d" % (j + 1):
+            bad.append("step %d: latest user fields not stored: %r" % (j, [(r["name"], r["rating"], r["comment"]) for r in mine]))
     except BaseException as e:
         bad.append("step %d: load raised %r" % (j, e))
 shutil.rmtree(tdir, ignore_errors=True)
